@@ -14,7 +14,7 @@ def tokAddr (a : Addr) : String :=
   if a = Mbond then "Mbond" else if a = Mdist then "Mdist" else if a = Ment then "Ment"
   else if a = Mfee then "Mfee" else if a = Mgov then "Mgov" else if a = Mnbond then "Mnbond"
   else if a = Mstr then "Mstr" else if a = Mxfer then "Mxfer"
-  else if 2000 ≤ a ∧ a < 2006 then s!"L{a - 2000}" else s!"A{a}"
+  else if 2000 ≤ a ∧ a < 2008 then s!"L{a - 2000}" else s!"A{a}"
 
 def tokAddrTok : AddrTok → String
   | .ok a false => tokAddr a
@@ -72,7 +72,7 @@ def digest (s : State) (nAccts : Nat) : List String :=
   (s.str.streams.mergeSort (fun a b => a.1.1 < b.1.1 ∨ (a.1.1 = b.1.1 ∧ a.1.2 ≤ b.1.2))).map (fun x =>
     let st := x.2
     s!"D str.stream {tokAddr x.1.1} {tokAddr x.1.2} {st.deposit}{st.denom} {st.rate} {st.last} {st.zero} {if st.cancellable then 1 else 0}") ++
-  ((List.range nAccts) ++ [Ment, Mstr, 2000, 2001, 2002, 2003, 2004, 2005]).map (fun a =>
+  ((List.range nAccts) ++ [Ment, Mstr, 2000, 2001, 2002, 2003, 2004, 2005, 2006, 2007]).map (fun a =>
     s!"D bank.bal {tokAddr a} {pCoins (s.bank.allBalances a)} {pCoins (s.bank.spendable s.nowSec a)}") ++
   [s!"D bank.fees {pCoins (Coins.add (s.bank.allBalances Mfee) (s.bank.allBalances Mdist))}",
    s!"D bank.supply {pCoins ((Coins.safeSub (Bank.sortCoins (s.bank.supply.map (fun x => { denom := x.1, amt := (x.2 : Int) }))) (s.bank.allBalances Mgov)).1)}",
@@ -85,6 +85,7 @@ def pAddr? (t : String) : Option Addr :=
   | "Mbond" => some Mbond | "Mdist" => some Mdist | "Ment" => some Ment | "Mfee" => some Mfee
   | "Mgov" => some Mgov | "Mnbond" => some Mnbond | "Mstr" => some Mstr | "Mxfer" => some Mxfer
   | "L0" => some 2000 | "L1" => some 2001 | "L2" => some 2002 | "L3" => some 2003 | "L4" => some 2004 | "L5" => some 2005
+  | "L6" => some 2006 | "L7" => some 2007
   | _ => if t.startsWith "A" then (t.drop 1).toNat? else none
 
 def pAddrTok? (t : String) : Option AddrTok :=
